@@ -18,6 +18,8 @@ from vlib import sqlir as ir
 
 ID = "C01"
 LEVEL = "exploration"
+EXHAUSTIVE = False
+EXHAUSTIVE_STREAMS = {'skeleton': 'thorough tier: the full product under all 28 dialects (complete); quick tier: a seeded fifth under ansi + 2-3 dialects', 'random': 'sampled'}
 RULE = ("case = (IR statement, dialect). skeleton stream: every combination of statement kind (INSERT x3 styles, CTAS, CREATE VIEW, bare query, "
         "CTE-prefixed INSERT, UPDATE..FROM, MERGE table/subquery source, CREATE LIKE, SELECT INTO, INSERT VALUES, no-op kinds) x FROM shape (single, "
         "aliased, schema-qualified, 2/3-way comma, 7 join kinds with ON/USING, chained joins, derived table, derived in JOIN, CTE reference, "
